@@ -636,8 +636,9 @@ def specs(tier):
             out.append((MOD, "mk_names", (strat, "three_ids", lens)))
         for lens in ([(2, 1)] if q else [(2, 1), (3, 2), (5, 1)]):
             out.append((MOD, "mk_names", (strat, "id_and_path", lens)))
-    for shape, lenss in [((1, 1), [(1, 1), (2, 1), (2, 2)] if q else [(1, 1), (2, 1), (2, 2), (3, 2), (3, 3)]),
-                         ((2,), [(1, 1), (2, 2)] if q else [(1, 1), (2, 1), (2, 2), (3, 3)]),
+    # (tags of 3x3 characters cost 8 CPU-hours per shape and found nothing the 3x2 / 2x2 instances did not: left out)
+    for shape, lenss in [((1, 1), [(1, 1), (2, 1), (2, 2)] if q else [(1, 1), (2, 1), (2, 2), (3, 2)]),
+                         ((2,), [(1, 1), (2, 2)] if q else [(1, 1), (2, 1), (2, 2), (3, 2)]),
                          ((1, 0), [(1,), (2,)] if q else [(1,), (2,), (3,), (4,)]),
                          ((2, 1), [(1, 1, 1)] if q else [(1, 1, 1), (2, 2, 1), (2, 1, 2)])]:
         for lens in lenss:
